@@ -3,34 +3,40 @@
 (* three may give it its outcome -- result handler (the worker's result), time-limit scanner  *)
 (* (TimeLimitExceeded), supervisor (WorkerLostError) -- and the scanner's soft-limit branch   *)
 (* may signal its worker.  Granularity: each thread *looks* whether the job is resolved and   *)
-(* then *acts*; the act of a writer is ApplyResult._set, which takes the handle's mutex,      *)
-(* publishes the outcome (event, table) and only then enters the user's callback, where it    *)
-(* may stay for as long as the user likes (`incb`) with the mutex held.                       *)
-(* `FirstWriterWins` says whether _set keeps the first outcome.                               *)
+(* then *acts*.  The act of a writer is ApplyResult._set, in its own steps:                   *)
+(*   Arrive   the call reaches the handle's mutex (a writer whose look said "resolved" never   *)
+(*            gets there)                                                                     *)
+(*   Acquire  it gets the mutex -- another writer may have held it meanwhile -- and, under it, *)
+(*            tests whether the job is resolved already (`FirstWriterWins`); if not it enters  *)
+(*            the user's on_timeout_cancel hook (`intc`), still before anything is published   *)
+(*   Publish  outcome, event and table are updated, then the user's callback is entered        *)
+(*            (`incb`), where the call may stay for as long as the user likes                  *)
+(*   Finish   the callback returns, the mutex is released                                      *)
 (* C01: an outcome never changes once it is observable; callbacks fire at most once.          *)
 (* C06: no soft-limit signal for a job whose result has been processed already -- a callback  *)
 (*      that has been entered is the observable proof that it has.                            *)
 EXTENDS Integers, Sequences, FiniteSets, TLC, Json
 CONSTANTS Writers,          \* subset of {"result", "timeout", "lost", "soft"}
           FirstWriterWins   \* BOOLEAN: _set ignores a second outcome
-VARIABLES pc,       \* w -> "idle" | "checked" | "incb" | "done"
+VARIABLES pc,       \* w -> "idle" | "checked" | "atlock" | "intc" | "incb" | "done"
           saw,      \* w -> what its look said: job still unresolved?
           look,     \* w -> callbacks entered at the moment of its look
           out,      \* "none" | "ok" | "timelimit" | "lost"
           incache,  \* the job is in the table
           cb, ecb,  \* success / error callbacks entered
+          tcancel,  \* on_timeout_cancel hooks entered
           mutex,    \* "none" or the writer that is inside _set
           softsig,  \* soft-limit signals sent to the job's worker
           tcb,      \* timeout callbacks (soft) fired
           hist,     \* every outcome the job was ever given, in order
           act
-vars == <<pc, saw, look, out, incache, cb, ecb, mutex, softsig, tcb, hist, act>>
-View == <<pc, saw, look, out, incache, cb, ecb, mutex, softsig, tcb, hist>>
+vars == <<pc, saw, look, out, incache, cb, ecb, tcancel, mutex, softsig, tcb, hist, act>>
+View == <<pc, saw, look, out, incache, cb, ecb, tcancel, mutex, softsig, tcb, hist>>
 Setters == Writers \ {"soft"}
 What(w) == CASE w = "result" -> "ok" [] w = "timeout" -> "timelimit" [] w = "lost" -> "lost"
 Init == /\ pc = [w \in Writers |-> "idle"] /\ saw = [w \in Writers |-> FALSE]
         /\ look = [w \in Writers |-> 0]
-        /\ out = "none" /\ incache = TRUE /\ cb = 0 /\ ecb = 0 /\ hist = <<>>
+        /\ out = "none" /\ incache = TRUE /\ cb = 0 /\ ecb = 0 /\ tcancel = 0 /\ hist = <<>>
         /\ mutex = "none" /\ softsig = 0 /\ tcb = 0
         /\ act = [name |-> "Init"]
 (* the thread looks: the result handler looks the job up in the table (a job that has left it is
@@ -42,27 +48,35 @@ Check(w) ==
     /\ saw' = [saw EXCEPT ![w] = IF w = "result" THEN incache ELSE out = "none"]
     /\ look' = [look EXCEPT ![w] = cb + ecb]
     /\ act' = [name |-> "Check", w |-> w]
-    /\ UNCHANGED <<out, incache, cb, ecb, mutex, softsig, tcb, hist>>
-(* ... and a writer acts on what it saw: _set, up to the entry of the user's callback.  A writer
-   that finds the mutex taken waits (the action is not enabled); one whose look said "resolved"
-   returns without touching it. *)
-Set(w) ==
-    /\ w \in Setters /\ pc[w] = "checked" /\ (saw[w] => mutex = "none")
-    /\ IF saw[w] /\ ~(FirstWriterWins /\ out # "none")
-         THEN /\ out' = What(w) /\ hist' = Append(hist, What(w)) /\ incache' = FALSE
-              /\ cb' = IF w = "result" THEN cb + 1 ELSE cb
-              /\ ecb' = IF w = "result" THEN ecb ELSE ecb + 1
-              /\ mutex' = w /\ pc' = [pc EXCEPT ![w] = "incb"]
-         ELSE /\ UNCHANGED <<out, hist, incache, cb, ecb, mutex>>
-              /\ pc' = [pc EXCEPT ![w] = "done"]
-    /\ act' = [name |-> "Set", w |-> w]
-    /\ UNCHANGED <<saw, look, softsig, tcb>>
+    /\ UNCHANGED <<out, incache, cb, ecb, tcancel, mutex, softsig, tcb, hist>>
+(* ... and a writer acts on what it saw: it calls _set and reaches the mutex, or returns *)
+Arrive(w) ==
+    /\ w \in Setters /\ pc[w] = "checked"
+    /\ pc' = [pc EXCEPT ![w] = IF saw[w] THEN "atlock" ELSE "done"]
+    /\ act' = [name |-> "Arrive", w |-> w]
+    /\ UNCHANGED <<saw, look, out, incache, cb, ecb, tcancel, mutex, softsig, tcb, hist>>
+Acquire(w) ==
+    /\ w \in Setters /\ pc[w] = "atlock" /\ mutex = "none"
+    /\ IF FirstWriterWins /\ out # "none"
+         THEN /\ pc' = [pc EXCEPT ![w] = "done"]          \* resolved meanwhile: nothing to do
+              /\ UNCHANGED <<mutex, tcancel>>
+         ELSE /\ pc' = [pc EXCEPT ![w] = "intc"] /\ mutex' = w /\ tcancel' = tcancel + 1
+    /\ act' = [name |-> "Acquire", w |-> w]
+    /\ UNCHANGED <<saw, look, out, incache, cb, ecb, softsig, tcb, hist>>
+Publish(w) ==
+    /\ w \in Setters /\ pc[w] = "intc"
+    /\ out' = What(w) /\ hist' = Append(hist, What(w)) /\ incache' = FALSE
+    /\ cb' = IF w = "result" THEN cb + 1 ELSE cb
+    /\ ecb' = IF w = "result" THEN ecb ELSE ecb + 1
+    /\ pc' = [pc EXCEPT ![w] = "incb"]
+    /\ act' = [name |-> "Publish", w |-> w]
+    /\ UNCHANGED <<saw, look, tcancel, mutex, softsig, tcb>>
 (* the user's callback returns; _set releases the mutex *)
 Finish(w) ==
     /\ w \in Setters /\ pc[w] = "incb"
     /\ pc' = [pc EXCEPT ![w] = "done"] /\ mutex' = "none"
     /\ act' = [name |-> "Finish", w |-> w]
-    /\ UNCHANGED <<saw, look, out, incache, cb, ecb, softsig, tcb, hist>>
+    /\ UNCHANGED <<saw, look, out, incache, cb, ecb, tcancel, softsig, tcb, hist>>
 (* TimeoutHandler.on_soft_timeout after its ready() look: timeout callback, then the signal *)
 SoftAct ==
     /\ "soft" \in Writers /\ pc["soft"] = "checked"
@@ -70,19 +84,19 @@ SoftAct ==
     /\ IF saw["soft"] THEN softsig' = softsig + 1 /\ tcb' = tcb + 1
                       ELSE UNCHANGED <<softsig, tcb>>
     /\ act' = [name |-> "SoftAct", w |-> "soft"]
-    /\ UNCHANGED <<saw, look, out, incache, cb, ecb, mutex, hist>>
-Next == SoftAct \/ \E w \in Writers : Check(w) \/ Set(w) \/ Finish(w)
+    /\ UNCHANGED <<saw, look, out, incache, cb, ecb, tcancel, mutex, hist>>
+Next == SoftAct \/ \E w \in Writers : Check(w) \/ Arrive(w) \/ Acquire(w) \/ Publish(w) \/ Finish(w)
 Spec == Init /\ [][Next]_vars
 OutcomeStable == Len(hist) <= 1
-CallbacksOnce == cb + ecb <= 1
+CallbacksOnce == cb + ecb <= 1 /\ tcancel <= 1
 (* when user code is told of the outcome, everybody else can see it too *)
 PublishedBeforeCallback == cb + ecb > 0 => out # "none" /\ ~incache
 (* no signal on behalf of a job whose result had been processed when the scanner looked *)
 SoftOnlyIfUnprocessed == softsig > 0 => look["soft"] = 0
 SoftSignalMatchesCallback == softsig = tcb /\ softsig <= 1
-MutexIsCallback == (mutex # "none") <=> (\E w \in Setters : pc[w] = "incb" /\ mutex = w)
+MutexIsCallback == (mutex # "none") <=> (\E w \in Setters : pc[w] \in {"intc", "incb"} /\ mutex = w)
 Proj == [pc |-> pc, saw |-> saw, look |-> look, out |-> out, incache |-> incache, cb |-> cb, ecb |-> ecb,
-         mutex |-> mutex, softsig |-> softsig, tcb |-> tcb, hist |-> hist]
+         tcancel |-> tcancel, mutex |-> mutex, softsig |-> softsig, tcb |-> tcb, hist |-> hist]
 EmitEdge == PrintT(ToJson([from |-> Proj, act |-> act', to |-> Proj', lvl |-> TLCGet("level")]))
 EmitInit == TLCGet("level") > 1 \/ PrintT(ToJson([init |-> Proj]))
 =============================================================================
